@@ -47,6 +47,28 @@ CHECKS = [
         note="Quantitative claim is stated through q = round(1/min_freq) in 2..10; frequencies compared as one float division (F3/F4).",
         technique=TECH,
     ),
+
+    dict(
+        property_id="C01",
+        text="Bounded symbolic model checking of the carvers' selection logic: the real _get_best_combination (with the real enumeration, grouping, viability, ordering and NaN-placement code) runs on pandas crosstabs whose cells are symbolic; (a) with one unconstrained symbolic measure value per distinct grouped table the solver proves, on every path, that the returned grouping is viable per the property text and that no viable candidate of an independent specification-side enumeration has a strictly larger measure, for ANY association measure incl. ties; that a feature is dropped only when no candidate is viable; that the measured table is exactly the grouped sum; (b) the same with the real chi2-based measures on solver-chosen concrete crosstabs (realisable witnesses).",
+        design_ref="DESIGN.md 6/C01",
+        note="k<=3 (quick)/4 (thorough) base modalities + NaN row, selected row totals (concrete, F3), symbolic positives, min_freq_mod concrete or any real in (0,0.5], max_n_mod 2..3, with/without dev crosstab (incl. absent modality, represented as the real _aggregator produces it). Rank agreement under rate ties is judged with a strict and a weak reading (either decision accepted). Counterexamples of the abstract-measure obligation are reported only if they replay with the real measure. ContinuousCarver selection and the end-to-end API tier are separate obligations (see level_note of later rounds).",
+        technique=TECH,
+    ),
+    dict(
+        property_id="C02",
+        text="Same symbolic exploration of the real selection logic as C01 with the bound assertions of C02: number of groups (NaN group included) <= max_n_mod, every group's train/dev share >= min_freq_mod (one float division, as a user computes it), dev ranking agrees, NaN untouched when dropna=False; plus _printer's frequency/target_rate equal their definitions on symbolic tables and min_freq_mod defaults to min_freq/2 for every real min_freq.",
+        design_ref="DESIGN.md 6/C02",
+        note="Bounds as C01. The literal statement on transformed frames (label counts after transform) is covered by the API-tier obligations.",
+        technique=TECH,
+    ),
+    dict(
+        property_id="C16",
+        text="Bounded symbolic model checking of history() and summary(): on every path of the selection-logic exploration the recorded history holds exactly one viable-flagged combination per search and it is the fitted grouping, earlier ones are flagged non-viable, later ones 'Not checked', in decreasing measure order; summary() of quantitative features (symbolic boundaries, all groupings, NaN placements) has one row per fitted group with NaN in its group; summary() of qualitative features partitions the known string values and agrees with transform.",
+        design_ref="DESIGN.md 6/C16",
+        note="k<=3/4 modalities for history; m<=4/5 boundaries for summary; qualitative category text concrete.",
+        technique=TECH,
+    ),
 ]
 
 ALL = ["C%02d" % i for i in range(1, 20)]
